@@ -37,6 +37,7 @@ type jobRef struct {
 	Raw        []byte // store value right after creation
 	Execs      int // successful executions
 	Fails      int // failed executions
+	Reborn     bool // an earlier create of this id was rolled back with its transaction / only simulated
 }
 
 // request: one create or execute request. JSON-serialisable (goes to the op log / witnesses).
@@ -67,11 +68,16 @@ type request struct {
 	HasSupplied  bool   `json:"has_supplied,omitempty"`
 	SuppliedOK   bool   `json:"supplied_ok,omitempty"` // supplied document is well formed
 	WasmSender   string `json:"wasm_sender,omitempty"` // "sender" field of the wasm message (must be ignored)
+
+	Group string `json:"group,omitempty"` // member of an atomic group (atomic.go): "<route>#<n>"
 }
 
 type result struct {
 	OK  bool   `json:"ok"`
 	Err string `json:"err,omitempty"`
+	// RolledBack (with !OK): the request was not refused itself; the transaction it belongs to
+	// failed at another message, or was only simulated. Its effects must be gone all the same.
+	RolledBack bool `json:"rolled_back,omitempty"`
 }
 
 // ---------------------------------------------------------------------------------------------
